@@ -1478,13 +1478,15 @@ class LogicalOrExpression(Expression):
         return [self.left, self.right]
 
 
-def _operand(expression: Expression, *, right: bool = False) -> str:
+def _operand(expression: Expression, *, right: bool = False) -> str:  # noqa: ARG001
     """Return _expression_ as the operand of a comparison or membership operator."""
     if isinstance(
         expression, (LogicalAndExpression, LogicalOrExpression, LogicalNotExpression)
     ):
         return f"({BooleanExpression(expression.token, expression)})"
-    if right and isinstance(
+    # A comparison that is itself an operand, on either side, was written in
+    # parentheses.
+    if isinstance(
         expression,
         (
             EqExpression,
